@@ -115,6 +115,7 @@ type verdict struct {
 	// undefined: a match copies window bytes that nothing has written yet (see lzref.Stats.Undefined):
 	// the format does not define the decoded bytes, so the byte-identity clause is not judged.
 	undefined bool
+	mask      []bool // per output byte: true = not defined by the stream (only set when undefined)
 }
 
 func refVerdict(in []byte, crc bool) verdict {
@@ -133,6 +134,9 @@ func refVerdict(in []byte, crc bool) verdict {
 	out, used, st, err := lzref.DecodeStats(raw)
 	v.out = out
 	v.undefined = st.Undefined > 0
+	if v.undefined {
+		v.mask = st.UndefMask
+	}
 	switch {
 	case err == nil && used == len(raw):
 		v.class = "exact"
@@ -303,6 +307,17 @@ func (c *ctx) exec(what string, in []byte, crc bool, v verdict, src lzwork.Sourc
 			binary.LittleEndian.Uint16(in), lzref.CRC(in[2:]))
 	case v.undefined && res.Total == int64(len(v.out)):
 		c.o.Count("close_success_bytes_not_judged(undefined_window_reference)", 1)
+		// ... but only the bytes that really derive from an undefined window position are undefined: all
+		// others (literals, copies of the blank pre-fill, copies of defined output) must be canonical
+		for i := 0; i < len(v.out) && i < len(res.Out) && i < len(v.mask); i++ {
+			if !v.mask[i] {
+				c.o.Count("defined_bytes_of_undefined_streams_compared", 1)
+				if res.Out[i] != v.out[i] {
+					violate("close-nil:bytes-differ", "Close() == nil but byte %d read (%#02x) is not the canonical decoding (%#02x); the stream also references undefined window bytes, this byte does not derive from them", i, res.Out[i], v.out[i])
+					break
+				}
+			}
+		}
 		// Which bytes such a stream decodes to is not defined by the format - but whatever they are,
 		// they must be a function of the stream alone: decode it twice more, each time right after a
 		// different unrelated message went through a Reader of its own (read to the end and closed).
